@@ -33,7 +33,11 @@ type costRes struct {
 	Millis   int64            `json:"millis"`
 }
 
-func writeLadder(ws string, w, d int, chain bool) error {
+func writeLadder(ws string, w, d int, chain bool) error { return writeLadderF(ws, w, d, chain, false) }
+
+// writeLadderF: with failing=true the bottom target n0000 fails, so that a build has to
+// propagate the failure to everything above it.
+func writeLadderF(ws string, w, d int, chain, failing bool) error {
 	type tgt struct {
 		Name    string   `json:"name"`
 		Command string   `json:"command"`
@@ -44,6 +48,9 @@ func writeLadder(ws string, w, d int, chain bool) error {
 	n := w * d
 	for i := 0; i < n; i++ {
 		t := tgt{Name: fmt.Sprintf("n%04d", i), Command: "true", Inputs: []string{"in.txt"}}
+		if failing && i == 0 {
+			t.Command = "exit 3"
+		}
 		if chain {
 			if i > 0 {
 				t.Deps = []string{fmt.Sprintf(":n%04d", i-1)}
@@ -157,16 +164,35 @@ func RunC19(tier string) int {
 	} else {
 		run.Count("git_unavailable(changes not driven)", 1)
 	}
-	for _, args := range cmds {
-		rc := chn.Run(args, grog.RunOpts{Build: "c", Timeout: 60 * time.Second})
-		rl := lad.Run(args, grog.RunOpts{Build: "l", Timeout: 60 * time.Second})
+	// partial selections: the part of the graph that is loaded but not selected must not cost
+	// more than linear time either
+	cmds = append(cmds, []string{"build", "//:n0003"}, []string{"deps", "-t", "//:n0031"}, []string{"rdeps", "-t", "//:n0031"})
+	compare := func(chn, lad *grog.Machine, args []string, tag string, env []string) {
+		rc := chn.Run(args, grog.RunOpts{Build: "c", Timeout: 60 * time.Second, Env: env})
+		rl := lad.Run(args, grog.RunOpts{Build: "l", Timeout: 60 * time.Second, Env: env})
 		run.Eval(2)
 		cpuC := rc.UserCPU + rc.SysCPU
 		cpuL := rl.UserCPU + rl.SysCPU
-		run.Set("process_cpu_ms:"+strings.Join(args, "_"), map[string]int64{"chain": cpuC.Milliseconds(), "ladder": cpuL.Milliseconds()})
+		run.Set("process_cpu_ms:"+tag+strings.Join(args, "_"), map[string]int64{"chain": cpuC.Milliseconds(), "ladder": cpuL.Milliseconds()})
 		if rl.TimedOut || cpuL > 100*cpuC+5*time.Second {
-			run.Violation("process-cpu-time-explodes cmd="+args[0], fmt.Sprintf("grog %v on a 2x30 ladder used %v CPU (timed out: %v) vs %v on a 60-node chain", args, cpuL, rl.TimedOut, cpuC), map[string]any{"args": args})
+			run.Violation("process-cpu-time-explodes cmd="+tag+args[0], fmt.Sprintf("grog %v (%s) on a 2x30 ladder used %v CPU (timed out: %v) vs %v on a 60-node chain", args, tag, cpuL, rl.TimedOut, cpuC), map[string]any{"args": args, "variant": tag})
 		}
+	}
+	for _, args := range cmds {
+		compare(chn, lad, args, "", nil)
+	}
+	// failure propagation: the bottom target fails; whole-graph and partial builds (the failed
+	// target's dependants are then partly selected, partly only loaded), keep-going and fail-fast
+	mkF := func(name string, chain bool) *grog.Machine {
+		ws := filepath.Join(dir, name)
+		_ = writeLadderF(ws, 2, 30, chain, true)
+		m := &grog.Machine{Bin: g, Workspace: ws, Root: filepath.Join(dir, name+"-root"), Home: filepath.Join(dir, "home"), Trace: filepath.Join(dir, name+"-trace"), VctlBin: self}
+		return m
+	}
+	ladF, chnF := mkF("ladder-failing", false), mkF("chain-failing", true)
+	for _, args := range [][]string{{"build"}, {"build", "//:n0002"}, {"build", "//:n0003", "//:n0011"}} {
+		compare(chnF, ladF, args, "bottom-target-fails:", nil)
+		compare(chnF, ladF, args, "bottom-target-fails+fail-fast:", []string{"GROG_FAIL_FAST=true"})
 	}
 	run.Assume("operation counts are exact (atomic counters at the loop heads); CPU time is process rusage, not wall clock")
 	return run.Finish()
